@@ -277,6 +277,8 @@ def replay(beh, idx, seed):
   what = f'apply(mutable={mutable!r}, rngs={sorted(cfg["streams"])}, edit={cfg["edit"]})'
   if dsl.snapshot(variables) != snap_vars:
     add('C01', f'{what}: the variables passed in were modified in place')
+    if cfg['edit'] == 'none':
+      add('C02', f'{what}: the variables returned by init were changed by apply (re-applying them cannot reproduce init)')
   if r2['status'] != ap['status']:
     prop = 'C02' if any(x in (ap['status'] + r2['status']) for x in ('NameInUse', 'NotFound', 'Shape')) else \
            ('C09' if 'InvalidRng' in (ap['status'] + r2['status']) else 'C01')
@@ -310,6 +312,7 @@ def replay(beh, idx, seed):
     r2b = run_phase(body, 'apply', variables, cfg['streams'], mutable)
     if r2b['status'] != r2['status'] or r2b['log'] != r2['log'] or not np.array_equal(r2b['out'], r2['out']):
       add('C01', f'{what}: repeating the call with the same inputs gives a different result')
+      add('C02', f'{what}: re-applying the same variables with the same rngs does not reproduce the first result')
     # the same module *instance* called again (init's instance and apply's instance): nothing may be cached on the object
     for inst_name, inst in (('the instance used for init', r1['module']), ('the instance used for the first apply', r2['module'])):
       try:
